@@ -13,7 +13,7 @@ const IDField = "_id"
 const UnknownField = "zz_unknown_field"
 
 // NormKinds is the number of norm functions.
-const NormKinds = 4
+const NormKinds = 6
 
 // NormFn returns the norm function of the given kind. All are strictly
 // positive for length >= 0.
@@ -33,9 +33,17 @@ func NormFn(kind int) func(string, int) float32 {
 		return func(_ string, l int) float32 { return float32(1 / math.Sqrt(float64(l+1))) }
 	case 2:
 		return func(_ string, _ int) float32 { return 0.5 }
-	default: // depends on the field name as well
+	case 3: // depends on the field name as well
 		return func(f string, l int) float32 { return 1 / float32(1+len(f)+3*l) }
+	case 4: // 4 and 5: two closures of ONE function literal (same code, other captured state)
+		return boosted(1)
+	default:
+		return boosted(3)
 	}
+}
+
+func boosted(boost float32) func(string, int) float32 {
+	return func(_ string, l int) float32 { return boost / float32(1+l) }
 }
 
 type Kind int
